@@ -208,6 +208,15 @@ class DeblendMachine(Machine):
             return {'op': 'serial'}
         if st.nsched >= st.cfg['nsched']:
             return None
+        if rng.chance(0.2) and st.entry == 'finder':
+            # the caller re-uses its SourceFinder with another setting
+            # (attribute assignment on the same object)
+            knob = rng.pick(['contrast', 'mode', 'nlevels', 'relabel'])
+            val = {'contrast': rng.pick([0.0, 1e-3, 0.05, 0.5, 1.0]),
+                   'mode': rng.pick(['exponential', 'linear', 'sinh']),
+                   'nlevels': rng.pick([1, 4, 16, 32]),
+                   'relabel': rng.chance(0.5)}[knob]
+            return {'op': 'reconfig', 'knob': knob, 'value': val}
         if rng.chance(0.12) and st.entry == 'deblend' and not st.cfg.get(
                 'carpet'):
             # the same process goes on with another configuration: anything
@@ -282,12 +291,15 @@ class DeblendMachine(Machine):
         if st.entry == 'finder':
             npx = c['npixels'] if c.get('npixels_det') is None else (
                 c['npixels_det'], c['npixels'])
-            finder = SourceFinder(npx, connectivity=c['connectivity'],
-                                  deblend=True, nlevels=c['nlevels'],
-                                  contrast=c['contrast'], mode=c['mode'],
-                                  relabel=c['relabel'], nproc=nproc,
-                                  progress_bar=False)
-            return call(finder, st.data, st.threshold)
+            if getattr(st, 'finder', None) is None:
+                # one finder object for the whole run
+                st.finder = SourceFinder(
+                    npx, connectivity=c['connectivity'], deblend=True,
+                    nlevels=c['nlevels'], contrast=c['contrast'],
+                    mode=c['mode'], relabel=c['relabel'], nproc=1,
+                    progress_bar=False)
+            st.finder.nproc = nproc
+            return call(st.finder, st.data, st.threshold)
         labels = st.labels
         rep = c.get('labels_repr', 'plain')
         if isinstance(labels, list) and labels:
@@ -351,10 +363,15 @@ class DeblendMachine(Machine):
         if op['op'] == 'serial':
             self._step_serial(st)
         elif op['op'] == 'reconfig':
-            if st.entry != 'deblend':
-                raise Inapplicable('reconfig')
             st.cfg = dict(st.cfg)
             st.cfg[op['knob']] = op['value']
+            if st.entry == 'finder':
+                if op['knob'] not in ('contrast', 'mode', 'nlevels',
+                                      'relabel') or getattr(
+                                          st, 'finder', None) is None:
+                    raise Inapplicable('reconfig')
+                setattr(st.finder, op['knob'], op['value'])
+                st.stats.probe('finder_attribute_reassigned')
             # a connectivity that differs from the one of the segmentation
             # may legitimately make the call raise: serial decides
             st.cfg['fault_tier'] = st.cfg['fault_tier'] or (
